@@ -57,19 +57,47 @@ func (w *world) writeFiles(files []wsFile) {
 	}
 }
 
+// brokerGoroutines lists the Broker goroutines of the newest bubble with their
+// wait state (witness for termination violations)
 func brokerGoroutines() string {
-	buf := make([]byte, 1<<20)
+	buf := make([]byte, 4<<20)
 	n := runtime.Stack(buf, true)
-	var out []string
 	re := regexp.MustCompile(`client\.\(\*Broker\)\.(\w+)`)
-	for _, g := range strings.Split(string(buf[:n]), "\n\n") {
-		if m := re.FindStringSubmatch(g); m != nil {
-			head := strings.SplitN(g, "\n", 2)[0]
+	rb := regexp.MustCompile(`synctest bubble (\d+)`)
+	type g struct {
+		bubble int
+		desc   string
+	}
+	var gs []g
+	maxB := 0
+	for _, blk := range strings.Split(string(buf[:n]), "\n\n") {
+		head := strings.SplitN(blk, "\n", 2)[0]
+		bm := rb.FindStringSubmatch(head)
+		if bm == nil {
+			continue
+		}
+		b := 0
+		fmt.Sscanf(bm[1], "%d", &b)
+		if b > maxB {
+			maxB = b
+		}
+		// innermost Broker frame and, if present, the line it is blocked at
+		if m := re.FindStringSubmatch(blk); m != nil {
 			st := ""
 			if i := strings.Index(head, "["); i >= 0 {
-				st = head[i:]
+				st = strings.TrimSuffix(head[i:], ":")
 			}
-			out = append(out, m[1]+" "+st)
+			line := ""
+			if lm := regexp.MustCompile(`client/client\.go:(\d+)`).FindStringSubmatch(blk); lm != nil {
+				line = ":" + lm[1]
+			}
+			gs = append(gs, g{b, m[1] + line + " " + st})
+		}
+	}
+	var out []string
+	for _, x := range gs {
+		if x.bubble == maxB {
+			out = append(out, strings.Replace(x.desc, fmt.Sprintf(", synctest bubble %d", maxB), "", 1))
 		}
 	}
 	sort.Strings(out)
